@@ -815,8 +815,8 @@ Examples:
                 mask = ones(xp.size, dtype=bool)
             else:
                 mask = zeros(xp.size, dtype=bool)
-                try: mask[sorted(index[0], key=abs)] = True
-                except IndexError: pass
+                for i in index[0]: # out-of-range members are ignored
+                    if -mask.size <= i < mask.size: mask[i] = True
             xp = xtype(choose(mask, (x,xp)))
             return f(xp, *args, **kwds)
         func.samples = _points
@@ -874,8 +874,8 @@ Examples:
                 mask = ones(xp.size, dtype=bool)
             else:
                 mask = zeros(xp.size, dtype=bool)
-                try: mask[sorted(index[0], key=abs)] = True
-                except IndexError: pass
+                for i in index[0]: # out-of-range members are ignored
+                    if -mask.size <= i < mask.size: mask[i] = True
             xp = choose(mask, (x,xp)).astype(_ints[0])
             ###############
             return f(xtype(xp), *args, **kwds)
@@ -934,8 +934,8 @@ Examples:
                 mask = ones(xp.size, dtype=bool)
             else:
                 mask = zeros(xp.size, dtype=bool)
-                try: mask[sorted(index[0], key=abs)] = True
-                except IndexError: pass
+                for i in index[0]: # out-of-range members are ignored
+                    if -mask.size <= i < mask.size: mask[i] = True
             xp = choose(mask, (x,xp)).astype(float)
             return f(xtype(xp), *args, **kwds)
         func.index = _index
@@ -994,8 +994,8 @@ Examples:
                 mask = ones(y.size, dtype=bool)
             else:
                 mask = zeros(y.size, dtype=bool)
-                try: mask[sorted(index[0], key=abs)] = True
-                except IndexError: pass
+                for i in index[0]: # out-of-range members are ignored
+                    if -mask.size <= i < mask.size: mask[i] = True
             y = choose(mask, (fx,y))#.astype(float)
             return xtype(y)
         func.index = _index
@@ -1227,6 +1227,8 @@ def bounded(seq, bounds, index=None, clip=True, nearest=True):
     # find indicies of the elements that are out of bounds
     at = where(sum([(lo <= seq)&(seq <= hi) for (lo,hi) in bounds.T], axis=0).astype(bool) == False)[-1]
     # find the intersection of out-of-bound and selected indicies
+    if index is not None: # python indexing: negative counts from the end, out-of-range is ignored
+        index = [i + len(seq) if i < 0 else i for i in index if -len(seq) <= i < len(seq)]
     at = at if index is None else intersect1d(at, index)
     if not len(at): return seq
     if clip:
@@ -1662,13 +1664,15 @@ Examples:
     def dec(f):
         def func(x, *args, **kwds):
             x = copy.copy(x) #XXX: inefficient
-            pairs = connected(mask)
+            n = len(x) # pairs with an out-of-range member are ignored
+            _mask = [(i,j) for (i,j) in mask if -n <= i < n and -n <= j < n]
+            pairs = connected(_mask)
             pairs = pairs.items()
             for i,j in pairs:
                 for k in j:
                     try: x[k] = x[i]
                     except IndexError: pass
-            pairs = list(mask) #XXX: inefficient
+            pairs = list(_mask) #XXX: inefficient
             while pairs: # deal with the offset
                 indx,trac = zip(*pairs)
                 trac = set(trac)
